@@ -104,11 +104,14 @@ def rule_P2(ctx) -> None:
             continue
         x = mname[len("TYPE_"):].lower()
         q = f"{x}_field"
+        made = None
         if not init.has(q):
-            ctx.refuted("P2", f"field-function[{x}]", "missing", init.rel, f"the plugin emits betterproto.{q}(...) for {mname} but that function does not exist")
-            continue
+            made = _factory_made_function(init, q)
+            if made is None:
+                ctx.refuted("P2", f"field-function[{x}]", "missing", init.rel, f"the plugin emits betterproto.{q}(...) for {mname} but that function does not exist")
+                continue
         n_field += 1
-        _check_field_fn(ctx, init, q, x)
+        _check_field_fn(ctx, init, q, x, made)
     _check_field_fn(ctx, init, "map_field", "map")
     ctx.floor("P2", "field functions", n_field, 17)
     for t in ("enum", "bool", "int32", "int64", "uint32", "uint64", "sint32", "sint64", "float", "double", "fixed32", "sfixed32", "fixed64", "sfixed64", "string", "bytes", "message", "map"):
@@ -119,8 +122,37 @@ def rule_P2(ctx) -> None:
             ctx.refuted("P2", f"const[{cname}]", repr(init.consts.get(cname)), init.rel, f"betterproto.{cname} = {init.consts.get(cname)!r}; MapEntryCompiler emits betterproto.{cname} and the runtime tables expect {t!r}")
 
 
-def _check_field_fn(ctx, init, q: str, x: str) -> None:
-    fn = init.func(q)
+def _factory_made_function(init, q: str):
+    """`q = F(<constants / names>)` at module level with F a module function that defines one nested function and returns it
+    (possibly after setting its __name__): that nested function with F's parameters replaced by the arguments"""
+    import copy
+    for st in init.tree.body:
+        if isinstance(st, ast.Assign) and len(st.targets) == 1 and isinstance(st.targets[0], ast.Name) and st.targets[0].id == q and isinstance(st.value, ast.Call) \
+                and isinstance(st.value.func, ast.Name) and init.has(st.value.func.id) and not st.value.keywords:
+            f = init.defs[st.value.func.id][0]
+            if not isinstance(f, ast.FunctionDef):
+                return None
+            inner = [b for b in f.body if isinstance(b, ast.FunctionDef)]
+            rets = [r for r in ast.walk(f) if isinstance(r, ast.Return) and r.value is not None and not any(r in list(ast.walk(i_)) for i_ in inner)]
+            params = [a.arg for a in f.args.args]
+            if len(inner) != 1 or len(rets) != 1 or not isinstance(rets[0].value, ast.Name) or rets[0].value.id != inner[0].name or len(params) != len(st.value.args):
+                return None
+            binding = dict(zip(params, st.value.args))
+
+            class R(ast.NodeTransformer):
+                def visit_Name(self, n):
+                    if isinstance(n.ctx, ast.Load) and n.id in binding:
+                        return copy.deepcopy(binding[n.id])
+                    return n
+            made = R().visit(copy.deepcopy(inner[0]))
+            ast.copy_location(made, st)
+            ast.fix_missing_locations(made)
+            return made
+    return None
+
+
+def _check_field_fn(ctx, init, q: str, x: str, fn=None) -> None:
+    fn = fn if fn is not None else init.func(q)
     calls = [c for c in ast.walk(fn) if isinstance(c, ast.Call) and ast.unparse(c.func) == "dataclass_field"]
     if len(calls) != 1:
         ctx.inconclusive("P2", f"field-function[{x}]", "does not call dataclass_field exactly once", init.loc(fn))
